@@ -622,14 +622,102 @@ func ruleDecodeSibling(p *Prog, r *Report, names []string) {
 				}
 			}
 		}
-		if len(stores) < 2 {
-			r.Bad(rule, n, "child inserted into the parent", p.Pos(rc.Pos()), fmt.Sprintf("expected the singleton store and the list store of the decoded child, found %d", len(stores)))
+		// the insertion may have moved into an unexported helper that receives the parent map, the key and the child: its stores count
+		// as the stores of the call site, provided every path through the helper makes one
+		type helperStore struct {
+			h     *ssa.Function
+			mu    *ssa.MapUpdate
+			child *ssa.Parameter
+		}
+		var hstores []helperStore
+		helperCallBlk := map[*ssa.BasicBlock]bool{}
+		for _, c := range selfCalls(fn) {
+			res := resultsOf(c)
+			if res[0] == nil {
+				continue
+			}
+			eachInstr(fn, func(b *ssa.BasicBlock, in ssa.Instruction) {
+				hc, ok := in.(*ssa.Call)
+				if !ok || !body[b] {
+					return
+				}
+				h := staticCallee(&hc.Call)
+				if h == nil || h == fn || !p.InModule(h) || p.Exported(h) || len(h.Blocks) == 0 {
+					return
+				}
+				var mapP, childP *ssa.Parameter
+				for i, a := range hc.Call.Args {
+					if i >= len(h.Params) {
+						continue
+					}
+					if isMapShaped(a.Type()) {
+						mapP = h.Params[i]
+					} else if isEmptyIface(a.Type()) && backwardSlice(fn, a)[res[0]] {
+						childP = h.Params[i]
+					}
+				}
+				if mapP == nil || childP == nil {
+					return
+				}
+				var mus []*ssa.MapUpdate
+				storeB := map[*ssa.BasicBlock]bool{}
+				eachInstr(h, func(b2 *ssa.BasicBlock, i2 ssa.Instruction) {
+					if mu, ok := i2.(*ssa.MapUpdate); ok && mu.Map == ssa.Value(mapP) && backwardSlice(h, mu.Value)[childP] {
+						mus = append(mus, mu)
+						storeB[b2] = true
+					}
+				})
+				if len(mus) == 0 {
+					return
+				}
+				// every path through the helper stores
+				all := true
+				seenH := map[*ssa.BasicBlock]bool{h.Blocks[0]: true}
+				workH := []*ssa.BasicBlock{h.Blocks[0]}
+				for len(workH) > 0 {
+					hb := workH[len(workH)-1]
+					workH = workH[:len(workH)-1]
+					if storeB[hb] {
+						continue
+					}
+					if _, isRet := hb.Instrs[len(hb.Instrs)-1].(*ssa.Return); isRet {
+						all = false
+					}
+					for _, sc := range hb.Succs {
+						if !seenH[sc] {
+							seenH[sc] = true
+							workH = append(workH, sc)
+						}
+					}
+				}
+				if !all {
+					return
+				}
+				already := false
+				for _, hs := range hstores {
+					if hs.h == h {
+						already = true
+					}
+				}
+				helperCallBlk[b] = true
+				if !already {
+					for _, mu := range mus {
+						hstores = append(hstores, helperStore{h, mu, childP})
+					}
+				}
+			})
+		}
+		if len(stores)+len(hstores) < 2 {
+			r.Bad(rule, n, "child inserted into the parent", p.Pos(rc.Pos()), fmt.Sprintf("expected the singleton store and the list store of the decoded child, found %d", len(stores)+len(hstores)))
 			continue
 		}
 		// (1) every path from the err==nil edge after the call(s) to the next iteration passes one of the stores
 		storeBlk := map[*ssa.BasicBlock]bool{}
 		for _, mu := range stores {
 			storeBlk[mu.Block()] = true
+		}
+		for b := range helperCallBlk {
+			storeBlk[b] = true
 		}
 		var starts []*ssa.BasicBlock
 		for _, c := range selfCalls(fn) {
@@ -763,6 +851,38 @@ func ruleDecodeSibling(p *Prog, r *Report, names []string) {
 				}
 			}
 			if baseFromLookup && elemFromChild {
+				okAppend = true
+			}
+		}
+		// list stores made inside the helper: append(entry found under the key parameter …, child parameter)
+		for _, hs := range hstores {
+			mi, ok := hs.mu.Value.(*ssa.MakeInterface)
+			if !ok {
+				continue
+			}
+			ap, ok := mi.X.(*ssa.Call)
+			if !ok || !isBuiltin(ap, "append") || !appendsExactlyOne(ap) {
+				continue
+			}
+			czh := p.canonFor(hs.h)
+			sameKey := false
+			for v := range backwardSlice(hs.h, ap.Call.Args[0]) {
+				var lk *ssa.Lookup
+				if l2, ok := v.(*ssa.Lookup); ok {
+					lk = l2
+				}
+				if ex, ok := v.(*ssa.Extract); ok {
+					if l2, ok := ex.Tuple.(*ssa.Lookup); ok {
+						lk = l2
+					}
+				}
+				if lk != nil && lk.X == hs.mu.Map && czh.of(lk.Index) == czh.of(hs.mu.Key) {
+					sameKey = true
+				}
+			}
+			if !sameKey {
+				badAppend = p.Pos(hs.mu.Pos())
+			} else if backwardSlice(hs.h, ap.Call.Args[1])[hs.child] {
 				okAppend = true
 			}
 		}
